@@ -1,5 +1,5 @@
 SPECIFICATION Spec
-CONSTANT Families = {1, 2, 4}
+CONSTANT Families = {1, 2, 4, 5}
 CONSTANT MaxDepth = 2
 CONSTANT Fuel = 6
 CONSTANT NLit1 = 9
